@@ -206,7 +206,13 @@ fn run_one(dag: &Dag, ops: &[SOp], acc: &mut Acc) {
         }
         if res.is_ok() {
             let mut e = vec![];
-            let _ = apply("x", &writes, model, &mut e);
+            // the name the real rule runs under (only `Append` observes it)
+            let name = match op {
+                Some(SOp::Publish(_)) => format!("p{i}"),
+                Some(SOp::Receive(_)) => format!("r{i}"),
+                _ => "act".to_string(),
+            };
+            let _ = apply(&name, &writes, model, &mut e);
         } else {
             acc.failed_ops += 1;
             if !sink.committed_effects().is_empty() {
